@@ -23,13 +23,21 @@ Stmts == P.blocks[b].stmts
 AtEnd == i = Len(Stmts) + 1
 SeqSet(q) == {q[k] : k \in DOMAIN q}
 
+(* the values of variable k of program pr: integers -B..B, or - for an array variable (pr.kinds[k] = "arr", programs of
+   tools/proggen.py array_live_program) - every tuple of pr.ncells integer cells: changing a dead ARRAY variable means
+   changing the content of at least one of its cells *)
+RangeOf(pr, k) == IF "kinds" \in DOMAIN pr /\ pr.kinds[k] = "arr" THEN [1..pr.ncells -> (-B)..B] ELSE (-B)..B
+RECURSIVE StatesN(_, _)
+StatesN(pr, m) == IF m = 0 THEN {<<>>} ELSE {Append(q, w) : q \in StatesN(pr, m - 1), w \in RangeOf(pr, m)}
+StatesOf(pr) == IF "kinds" \in DOMAIN pr THEN StatesN(pr, pr.nv) ELSE [1..pr.nv -> (-B)..B]
+
 Init == /\ p \in DOMAIN Progs
         /\ Progs[p].err = 0
         /\ ob \in {q \in DOMAIN Progs[p].blocks :   \* no execution stands at the end of a block containing `unreachable`
                      \A k \in DOMAIN Progs[p].blocks[q].stmts : Progs[p].blocks[q].stmts[k].op # "unreach"}
         /\ v \in {Progs[p].dead[ob][k] : k \in DOMAIN Progs[p].dead[ob]}
-        /\ s1 \in [1..Progs[p].nv -> (-B)..B]
-        /\ \E w \in ((-B)..B) \ {s1[v]} : s2 = [s1 EXCEPT ![v] = w]
+        /\ s1 \in StatesOf(Progs[p])
+        /\ \E w \in RangeOf(Progs[p], v) \ {s1[v]} : s2 = [s1 EXCEPT ![v] = w]
         /\ b = ob /\ i = Len(Progs[p].blocks[ob].stmts) + 1
         /\ n = 0
 
